@@ -16,12 +16,18 @@ pub const LIVE: u32 = 0x11fe_11fe;
 pub const DEAD: u32 = 0xdead_dead;
 const SC: Ordering = Ordering::SeqCst;
 
+/// `pop_mask` of nodes made by `Ctx::new_node` (parameter `dpop` of any scenario; default: both
+/// edges popped, plain destructor).
+pub static DEFAULT_POP: std::sync::atomic::AtomicU8 = std::sync::atomic::AtomicU8::new(0b11);
+
 pub struct Node {
     pub id: u32,
     pub magic: AtomicU32,
     pub next: [AtomicRc<Node>; 2],
     pub back: AtomicWeak<Node>,
-    /// which `next` edges `pop_edges` hands to the cascade (the others go through `Drop`)
+    /// bits 0-1: which `next` edges `pop_edges` hands to the cascade (the others go through
+    /// `Drop`); bit 2: the destructor itself enters a critical section and flushes (a destructor
+    /// that uses the library re-enters the collector that is running it)
     pub pop_mask: u8,
 }
 
@@ -43,6 +49,10 @@ impl Drop for Node {
         self.magic.store(DEAD, Ordering::Relaxed);
         if let Some(m) = try_mon() {
             m.payload_drop(self.id);
+        }
+        if self.pop_mask & 4 != 0 {
+            let g = circ::cs();
+            g.flush();
         }
     }
 }
@@ -167,7 +177,7 @@ impl Ctx {
     // ------------------------------------------------------------------ Rc
 
     pub fn new_node(&self, id: u32) -> Rc<Node> {
-        self.new_node_with(id, None, None, None, 0b11)
+        self.new_node_with(id, None, None, None, DEFAULT_POP.load(Ordering::Relaxed))
     }
 
     pub fn new_node_with(
